@@ -339,9 +339,21 @@ func runC09(c *Ctx) {
 		}
 		c.errDropRule("A14", f)
 	}
+	// A17: the same functions never assign an error to a variable that nothing reads (a shadow, a value overwritten by the
+	// next step): that is how a 'cancelled' met by one step turns into the success of the following one
+	c.rule("A17", "in the context-carrying functions of filesystem and safeio an error assigned to a variable is read before the variable is overwritten or goes out of scope", 100)
+	for _, f := range s.all {
+		if !(inPkg(fsPkgRel)(f) || inPkg("safeio")(f)) || strings.HasSuffix(c.Fset.Position(f.Pos()).Filename, "lockfile.go") {
+			continue
+		}
+		c.errOverwrittenRule("A17", f)
+	}
 
 	// ---- A15 / A16 ----------------------------------------------------------
 	s.contextErrorsTravel()
+
+	// ---- A18 ----------------------------------------------------------------
+	s.contextKindsTogether()
 
 	// ---- A12 ----------------------------------------------------------------
 	// "fails with the 'cancelled' or 'timeout' kind when its context is already done at the call": no other failure is
@@ -1603,4 +1615,61 @@ func (s *c09State) contextErrorsTravel() {
 		c.info("A15", "filesystem/no-discarded-error-of-a-context-callee", "-", "no function discards the error of a callee it hands its context to")
 	}
 	c.Extra["discarded_errors_of_context_callees"] = nDiscard
+}
+
+// contextKindsTogether (A18): "fails with the 'cancelled' or 'timeout' kind … reports the same kinds". A context ends by
+// cancellation or by its deadline and the library treats the two alike everywhere: a call that classifies an error against
+// one of the two kinds names the other as well. Naming one only makes the outcome depend on how the context ended — a
+// cancellation is reported, the same schedule with a deadline is swallowed (or the reverse).
+func (s *c09State) contextKindsTogether() {
+	c := s.c
+	c.rule("A18", "a call that classifies an error against one of the kinds 'cancelled' / 'timeout' (commonerrors.Any, None, Ignore, errors.Is chains in one condition are not followed) names the other one too", 15)
+	for _, sp := range c.SSAPkgs {
+		if !strings.HasPrefix(sp.Pkg.Path(), modPath) || strings.Contains(sp.Pkg.Path(), "/mocks") {
+			continue
+		}
+		rel := shortPkg(sp.Pkg.Path())
+		if rel == "commonerrors" {
+			continue // the package that defines the kinds converts each of them on its own
+		}
+		for _, f := range c.srcFuncs(rel) {
+			allInstrs(f, func(in ssa.Instruction) {
+				cl, ok := in.(*ssa.Call)
+				if !ok {
+					return
+				}
+				switch n := calleeFull(&cl.Call); {
+				case strings.HasSuffix(n, "commonerrors.Any"), strings.HasSuffix(n, "commonerrors.None"), strings.HasSuffix(n, "commonerrors.Ignore"):
+				default:
+					return
+				}
+				if len(cl.Call.Args) < 2 {
+					return
+				}
+				cancelled, timeout := false, false
+				for _, e := range variadicElems(cl.Call.Args[1]) {
+					if u, ok := stripConv(e).(*ssa.UnOp); ok && u.Op == token.MUL {
+						if g, ok := u.X.(*ssa.Global); ok {
+							switch g.Name() {
+							case "ErrCancelled":
+								cancelled = true
+							case "ErrTimeout":
+								timeout = true
+							}
+						}
+					}
+				}
+				if !cancelled && !timeout {
+					return
+				}
+				c.FuncsSeen[fname(outermost(f))] = true
+				which := "'cancelled'"
+				if timeout {
+					which = "'timeout'"
+				}
+				c.check(cancelled && timeout, "A18", fname(outermost(f))+"/context-kinds", c.ipos(cl), "both context kinds named",
+					"the error is classified against "+which+" only: a context that ends the other way (deadline instead of cancellation, or the reverse) takes the other branch — where this decides whether the end of the context is reported, one of the two is swallowed")
+			})
+		}
+	}
 }
